@@ -21,6 +21,9 @@ Line-protocol driver for the C12 model (merge of partial query results above the
                                        ForkGroupingTask / NewSeriesAggregator's id collection /
                                        CompleteGroupingTask / SendResponse(nil) / getTagValues
                                        state line: pend= rem= closed= ans= ids= maps=
+  li-new <k> <holes> | li-spawn | li-ids <id>,.. | li-dec | li-load | li-body <-|failing key> | li-send
+                                       the same protocol step by atomic step (Dec / Load / body of a
+                                       completion are separate): state line + ndec= nload0=
 
   <payload> := (s:<field>:<ftype>:<fn>,<fn>.. | h:<tags>=<hash> | t:<tags> | f:<field>:<ftype>
                | p:<kind>:<slot>=<v>,<slot>=<v>..)*       ("-" = empty list / empty tags)
@@ -42,6 +45,7 @@ structure DSt where
   tags : List String := []      -- interned group tags
   names : List String := []     -- interned field names
   tmReg : List Nat := []                     -- context ids registered with the task manager
+  li : Option LeafCollect.GI := none         -- the same at the granularity of atomic steps
   lc : Option LeafCollect.G := none          -- the leaf grouping context of the current case
   lcHoles : List (Nat × Nat) := []           -- (key index, tag value id) without a dictionary value
 
@@ -429,6 +433,40 @@ def doFamilies (toks : List String) : String :=
     let groups := RowRoute.familyGroups fam (ps.map (fun p => (p.1, p.2.1)))
     " ".intercalate (groups.map (fun g => s!"{g.1}:{",".intercalate ((sortNat (g.2.map Prod.fst)).map toString)}"))
 
+def showLi (s : LeafCollect.GI) : String := s!"{showLc s.g} ndec={s.ndec} nload0={s.nload0}"
+
+def stepLi (st : DSt) (ws : List String) : DSt × String :=
+  let ev? : Option LeafCollect.EvI := match ws with
+    | ["li-spawn"] => some .spawn
+    | ["li-ids", vs] => (parseNats vs).map .ids
+    | ["li-dec"] => some .dec
+    | ["li-load"] => some .load
+    | ["li-body", f] => if f = "-" then some (.body none) else (f.toNat?).map (fun x => .body (some x))
+    | ["li-send"] => some .send
+    | _ => none
+  match ws with
+  | ["li-new", k, holes] =>
+    let hs? : Option (List (Nat × Nat)) :=
+      if holes = "-" then some [] else
+      (holes.splitOn ",").mapM (fun w => match w.splitOn ":" with
+        | [a, b] => do let x ← a.toNat?; let y ← b.toNat?; some (x, y)
+        | _ => none)
+    match k.toNat?, hs? with
+    | some k, some hs =>
+      let s := LeafCollect.GI.new k
+      ({ st with li := some s, lcHoles := hs }, showLi s)
+    | _, _ => (st, "bad-op")
+  | _ =>
+    match st.li, ev? with
+    | some s, some e =>
+      let wellFormed := match e with
+        | .ids vs => vs.length == s.g.nkeys && s.g.nkeys != 0
+        | _ => true
+      if !wellFormed then (st, "bad-op") else
+      let s' := s.step (lcKnown st) currentWait e
+      ({ st with li := some s' }, showLi s')
+    | _, _ => (st, "bad-op")
+
 def step (st : DSt) (ws : List String) : DSt × String :=
   match ws with
   | ["plan", a, s, sc] =>
@@ -508,7 +546,7 @@ def step (st : DSt) (ws : List String) : DSt × String :=
     | _, _ => (st, "bad-op")
   | "route" :: rest => (st, doRoute rest)
   | "families" :: rest => (st, doFamilies rest)
-  | w :: _ => if w.startsWith "lc-" then stepLc st ws else if w.startsWith "tm-" then stepTm st ws else (st, "bad-op")
+  | w :: _ => if w.startsWith "li-" then stepLi st ws else if w.startsWith "lc-" then stepLc st ws else if w.startsWith "tm-" then stepTm st ws else (st, "bad-op")
   | _ => (st, "bad-op")
 
 def main (_args : List String) : IO Unit := Proto.runLoop ({} : DSt) step
